@@ -32,12 +32,18 @@ TEXT = {
               'offset, then take limit (select_spec), else clause exactly when nothing is selected, '
               'forloop.index/index0/rindex/rindex0/length/first/last by formula for every iteration, break/continue consumed by '
               'the innermost loop (iterate_consumes, iterate_break, iterate_next), cycle counters per loop execution and group '
-              '(cycleGet_set_same, cycleGet_fresh), tablerow row/cell decoration (tablerow_before/after). Tie: the `loops` stream '
+              '(cycleGet_set_same, cycleGet_fresh), tablerow row/cell decoration (tablerow_before/after). Whole-construct '
+              'denotation (loop_denotation, for_denotation, tablerow_denotation): once the collection and the modifiers '
+              'evaluate, the bytes written on a fault-free writer and the final state of a for/tablerow node equal the left fold '
+              '(List.foldl of iterStep) over the selected items of the body run with the loop variable and forloop bound by the '
+              'formulas (tablerow: between its cell decorations), cut at the first break, going on after continue, failures '
+              'located at the loop tag, with forloop and the loop variable restored at the end; nothing selected and an else '
+              'clause: that clause. Tie: the `loops` stream '
               '(exhaustive offset/limit/reversed/cols/break grid plus random nestings) answers every case by the model and the '
               'real engine, and the real output is compared byte for byte with an independent reference loop '
               '(harness/ref_prog.go).'),
     "design_ref": 'DESIGN.md 6 C11',
     "note": NOTE + (""),
-    "technique": ('Lean 4 proof (list lemmas for selection; induction over the iteration of the render model) + model/implementation '
+    "technique": ('Lean 4 proof (list lemmas for selection; induction over the iteration of the render model; loop = left fold) + model/implementation '
               'correspondence + independent reference oracle'),
 }
